@@ -185,6 +185,8 @@ NamesAB  == << <<97>>, <<98>>, <<99>> >>
 NamesRich == << <<>>, <<0>>, <<97>>, <<97, 0>>, <<97, 97>>, <<98>>, <<128>>, <<255>> >>
 LookAB   == {<<>>, <<97>>, <<97, 97>>, <<98>>, <<99>>, <<100>>}
 LookRich == {<<>>, <<0>>, <<97>>, <<97, 0>>, <<97, 97>>, <<97, 98>>, <<98>>, <<127>>, <<128>>, <<255>>, <<255, 0>>}
+OpsWalk  == {"enter", "next", "leave"}
+OpsNavE  == {"enter", "next", "leave", "raw", "nextens"}
 OpsNav   == {"enter", "next", "leave", "raw"}
 OpsAll   == {"enter", "next", "leave", "raw", "field", "nextens", "fieldens"}
 OpsLook  == {"enter", "next", "leave", "field", "fieldens"}
